@@ -353,6 +353,33 @@ func cmdCheck(args []string) int {
 			}(r)
 		}
 		wg2.Wait()
+		// third pass: a FEW obligations left undecided (timeout/unknown, no model) are more
+		// likely a loaded machine than a broken property - they get one more portfolio run with
+		// three times the limit before they are reported. Many undecided obligations mean the
+		// tree really changed: no retry (the cost would only delay the report).
+		var again []*OblResult
+		for _, r := range pend {
+			if r.Status != "unsat" && r.Status != "sat" {
+				again = append(again, r)
+			}
+		}
+		if len(again) > 0 && len(again) <= 4 {
+			var wg4 sync.WaitGroup
+			for _, r := range again {
+				wg4.Add(1)
+				go func(r *OblResult) {
+					defer wg4.Done()
+					rr, file := Portfolio(r.obl, SolverCfg{Timeout: 3 * pfT, WorkDir: work, Seed: seed + 1})
+					r.Tried = append(r.Tried, "retry")
+					r.Tried = append(r.Tried, rr.Tried...)
+					r.Seconds += rr.Seconds
+					if rr.Status == "unsat" || rr.Status == "sat" {
+						r.Status, r.Solver, r.output, r.file = rr.Status, rr.Solver+"/retry", rr.Output, file
+					}
+				}(r)
+			}
+			wg4.Wait()
+		}
 	}
 	// thorough tier: every proof found by z3-new is re-run on a second, independent solver
 	// (z3 4.8.12, then cvc5) on the SAME query; a `sat` there is a solver disagreement and is
